@@ -35,6 +35,7 @@ type vxC06Step struct {
 type vxC06Case struct {
 	Proto      int             `json:"proto"`
 	TimeoutMs  int             `json:"timeout_ms,omitempty"` // >0: the driver's own request timer (unanswered callers time out)
+	TOLimit    int             `json:"timeout_limit,omitempty"` // >0: the (deprecated, global) TimeoutLimit: the connection is closed after that many timeouts
 	Coalesce   bool            `json:"coalesce"`
 	Writes     []vnode.WriteRule `json:"writes,omitempty"` // fault plan of the (first) pool connection
 	WriteTO    int             `json:"write_timeout_ms,omitempty"`
@@ -46,6 +47,9 @@ func vxDrawC06(t *rapid.T) *vxC06Case {
 	c := &vxC06Case{Proto: rapid.IntRange(1, 5).Draw(t, "proto"), Coalesce: rapid.Bool().Draw(t, "coalesce"), CloseTwice: rapid.Bool().Draw(t, "twice")}
 	if rapid.IntRange(0, 4).Draw(t, "timer") == 0 {
 		c.TimeoutMs = 150
+		if rapid.Bool().Draw(t, "tolimit") {
+			c.TOLimit = rapid.IntRange(1, 3).Draw(t, "limit")
+		}
 	}
 	if rapid.IntRange(0, 2).Draw(t, "wfault") == 0 {
 		n := rapid.IntRange(1, 2).Draw(t, "nrules")
@@ -133,6 +137,8 @@ func vxRunC06(c *vxC06Case, k *vstats.Case) error {
 	if c.Proto < 1 || c.Proto > 5 {
 		return nil
 	}
+	TimeoutLimit = int64(c.TOLimit) // package-level knob of the driver; cases run one at a time
+	defer func() { TimeoutLimit = 0 }()
 	cl := vnode.NewCluster(vxSpecs(1, 1))
 	node := cl.Nodes()[0]
 	mon := &vxC01Monitor{outstanding: map[int]map[int]string{}, held: map[string]*vxC01Held{}, arrived: make(chan string, 8192), maxStream: 127}
@@ -423,7 +429,7 @@ func vxRunC06(c *vxC06Case, k *vstats.Case) error {
 			// connection-level outcome: legal only if something happened to its connection / the session,
 			// a write fault was planned, or no stream / connection was available
 			legal := cr.doomed || len(c.Writes) > 0 || errors.Is(err, ErrNoStreams) || errors.Is(err, ErrNoConnections) || cuts > 0 ||
-				(c.TimeoutMs > 0 && errors.Is(err, ErrTimeoutNoResponse))
+				(c.TimeoutMs > 0 && errors.Is(err, ErrTimeoutNoResponse)) || c.TOLimit > 0
 			if !legal {
 				return fmt.Errorf("caller of %s got %v although nothing happened to its connection", cr.tok, err)
 			}
